@@ -218,9 +218,9 @@ func c20Run(w *verifrt.World, tier Tier) *RunResult {
 		}
 		var bad []string
 		for _, f := range ex.Left {
-			if opRole(f) == "upload" && (sc.KeepMode == "On" || sc.KeepMode == "RelevantOnly") {
-				// retention configured (RelevantOnly depends on what matched in
-				// this very execution; not second-guessed here)
+			if opRole(f) == "upload" && (sc.KeepMode == "On" || (sc.KeepMode == "RelevantOnly" && len(ex.Out.ErrCB) > 0)) {
+				// retention applies: always, or because a rule with logging
+				// enabled matched in this very execution
 				continue
 			}
 			if ex.Fired == "remove-error" && ex.FiredOp.Path == f {
